@@ -59,6 +59,8 @@ class LayoutCase(base.CaseBase):
         return 1 <= rw and rw <= w and w <= MAXW
 
     def layout(self, shape, leaves, offs, w, rw, smart):
+        if self.nleaves > len(leaves) or self.noffs > len(offs):
+            raise base_shape_error(shape)
         doc = refsem.build(shape, leaves, offs, self.anns)
         fn = L.layout_smart if smart else L.layout_fast
         frac = stubs.ribbon_frac_arg(rw, w, self.native)
@@ -130,6 +132,14 @@ class LayoutCase(base.CaseBase):
     def default_args(self):
         return dict(a='aaaa', b='bbb', c='cc', d='dddd', e='e', i=2, j=3, w=9,
                     rw=8, smart=True)
+
+
+class ShapeTooLarge(BaseException):
+    """machinery error: the shape needs more symbolic parameters than the harness has"""
+
+
+def base_shape_error(shape):
+    return ShapeTooLarge(gen_docs.show(shape))
 
 
 def _thaw(x):
